@@ -12,7 +12,7 @@ use hpo::{HpoSet, HpoTermId, Ontology};
 use std::collections::{BTreeMap, BTreeSet};
 use std::panic;
 
-pub const MAXN: usize = 5;
+pub const MAXN: usize = 8;
 /// fact node meaning: the record is added without a term
 pub const NO_TERM: u8 = 255;
 
@@ -71,10 +71,10 @@ pub fn pairs(n: usize) -> Vec<(usize, usize)> {
 /// node -> term id. Map 0 has the two standard roots as nodes 0 and 1.
 pub fn ids(idmap: u8, n: usize) -> Vec<u32> {
     let all: [u32; MAXN] = match idmap {
-        0 => [1, 118, 200, 5, 400],
-        1 => [50, 40, 30, 20, 10],
-        2 => [30, 10, 9_999_999, 20, 40],
-        _ => [7, 3, 11, 2, 5],
+        0 => [1, 118, 200, 5, 400, 707, 12823, 3000],
+        1 => [50, 40, 30, 20, 10, 60, 70, 5],
+        2 => [30, 10, 9_999_999, 20, 40, 9_999_998, 2, 50],
+        _ => [7, 3, 11, 2, 5, 13, 1, 17],
     };
     all[..n].to_vec()
 }
@@ -882,6 +882,53 @@ pub fn cases(thorough: bool, idmaps: &[u8], with_facts: bool) -> Vec<Case> {
     out
 }
 
+/// xorshift generator for the random larger-scope cases (seeded by VERIF_SEED)
+pub struct Rng(pub u64);
+impl Rng {
+    pub fn next(&mut self) -> u64 {
+        let mut x = self.0;
+        x ^= x << 13;
+        x ^= x >> 7;
+        x ^= x << 17;
+        self.0 = x;
+        x
+    }
+    pub fn below(&mut self, n: u64) -> u64 {
+        self.next() % n
+    }
+}
+/// random ontologies beyond the exhaustive bound: `lo..=hi` terms, each possible link present with probability ~1/3,
+/// up to 8 annotation facts (some for records without a term)
+pub fn random_cases(seed: u64, count: usize, lo: usize, hi: usize, idmaps: &[u8], with_facts: bool) -> Vec<Case> {
+    let mut r = Rng(seed.wrapping_mul(0x9E37_79B9_7F4A_7C15) ^ 0xD1B5_4A32_D192_ED03);
+    let mut out = vec![];
+    for _ in 0..count {
+        let n = lo + r.below((hi - lo + 1) as u64) as usize;
+        let np = pairs(n).len();
+        let mut edges = 0u32;
+        for k in 0..np {
+            if r.below(3) == 0 {
+                edges |= 1 << k;
+            }
+        }
+        // keep the standard roots connected in most cases so that the binary / category oracles apply
+        if r.below(4) != 0 {
+            edges |= 1;
+        }
+        let mut facts = vec![];
+        if with_facts {
+            for _ in 0..r.below(9) {
+                let kind = r.below(3) as u8;
+                let rec = 1 + r.below(4) as u32;
+                let node = if r.below(8) == 0 { NO_TERM } else { r.below(n as u64) as u8 };
+                facts.push((kind, rec, node));
+            }
+        }
+        out.push(Case { n, edges, idmap: idmaps[r.below(idmaps.len() as u64) as usize], order: r.below(4) as u8, facts });
+    }
+    out
+}
+
 pub static THOROUGH: std::sync::atomic::AtomicBool = std::sync::atomic::AtomicBool::new(false);
 
 pub fn run_parallel(cs: Vec<Case>, f: fn(&Case) -> Check) -> Result<usize, (Case, String)> {
@@ -944,6 +991,18 @@ pub fn oracle(prop: &str) -> Option<(fn(&Case) -> Check, &'static [u8], bool)> {
 
 pub fn explore(prop: &str, thorough: bool) -> i32 {
     panic::set_hook(Box::new(|_| {}));
+    if prop == "C20" {
+        return match check_c20_all(thorough) {
+            Ok((ids, texts)) => {
+                println!("EXPLORE-OK property={prop} cases={} distinct_dags={} max_terms=0 sample=ids_0..=10000000+borders_and_{texts}_texts", ids + texts, ids + texts);
+                0
+            }
+            Err(e) => {
+                println!("EXPLORE-VIOLATION property={prop} case=ids what={}", e.replace('\n', " | "));
+                1
+            }
+        };
+    }
     if prop == "C17" {
         return match check_c17_all(thorough) {
             Ok(n) => {
@@ -994,12 +1053,34 @@ pub fn explore(prop: &str, thorough: bool) -> i32 {
         // the distance-based similarity needs 5 terms to tell a detour from the direct descent: add the fact-free 5-term graphs
         cs.extend(cases(false, idmaps, false).into_iter().filter(|c| c.n == 5 && c.order == 0));
     }
+    // beyond the exhaustive bound: random larger ontologies (size cap per oracle cost), seeded by VERIF_SEED
+    let seed: u64 = std::env::var("VERIF_SEED").ok().and_then(|s| s.parse().ok()).unwrap_or(0);
+    let (rcount, rhi) = match prop {
+        "C05" => (if thorough { 60 } else { 12 }, 6),
+        "C18" => (if thorough { 40 } else { 8 }, 6),
+        "C08" => (if thorough { 300 } else { 60 }, 7),
+        "C13" | "C06" => (if thorough { 600 } else { 100 }, 7),
+        "C16" => (if thorough { 600 } else { 100 }, 8),
+        _ => (if thorough { 3000 } else { 400 }, 8),
+    };
+    let n_exhaustive = cs.len();
+    let mut rc = random_cases(seed + 1, rcount, 5, rhi, idmaps, with_facts);
+    match prop {
+        "C18" | "C16" => rc.iter_mut().for_each(|c| c.order = 0),
+        "C08" => rc.iter_mut().for_each(|c| {
+            c.edges |= 1;
+            c.order = 0;
+        }),
+        _ => {}
+    }
+    cs.extend(rc);
+    let n_random = cs.len() - n_exhaustive;
     let distinct: BTreeSet<(usize, u32)> = cs.iter().map(|c| (c.n, c.edges)).collect();
     let sample = cs.get(cs.len() / 2).map(|c| c.id()).unwrap_or_default();
     match run_parallel(cs, f) {
         Ok(n) => {
             println!(
-                "EXPLORE-OK property={prop} cases={} distinct_dags={} max_terms={} sample={sample}",
+                "EXPLORE-OK property={prop} cases={} distinct_dags={} max_terms={} random_cases={n_random} random_max_terms={rhi} sample={sample}",
                 n + extra,
                 distinct.len(),
                 if thorough || !with_facts || prop == "C04" { 5 } else { 4 }
@@ -1016,6 +1097,12 @@ pub fn explore(prop: &str, thorough: bool) -> i32 {
 pub fn replay_case(prop: &str, id: &str) -> (bool, String) {
     panic::set_hook(Box::new(|_| {}));
     THOROUGH.store(true, std::sync::atomic::Ordering::Relaxed);
+    if id == "ids" {
+        return match check_c20_all(true) {
+            Ok(_) => (false, "id rendering / parsing as specified".into()),
+            Err(e) => (true, e),
+        };
+    }
     if id == "linkage" {
         return match check_c17_all(true) {
             Ok(_) => (false, "clustering as specified".into()),
@@ -2006,4 +2093,111 @@ pub fn check_c17_all(thorough: bool) -> Result<usize, String> {
         }
     }
     Ok(count)
+}
+
+// ================================================================================================ C20: the whole id space, and a text grid
+fn c20_render(x: u32) -> String {
+    // 'HP:' + decimal digits, zero padded to seven (independent of core::fmt)
+    let mut digits = vec![];
+    let mut v = x;
+    loop {
+        digits.push(b'0' + (v % 10) as u8);
+        v /= 10;
+        if v == 0 {
+            break;
+        }
+    }
+    while digits.len() < 7 {
+        digits.push(b'0');
+    }
+    digits.reverse();
+    format!("HP:{}", String::from_utf8(digits).unwrap())
+}
+fn c20_parse_oracle(s: &str) -> Option<u32> {
+    let b = s.as_bytes();
+    if b.len() < 4 || !s.is_char_boundary(3) {
+        return None;
+    }
+    let rest = &b[3..];
+    // what u32::from_str accepts: optional '+', then at least one ASCII digit, value <= u32::MAX
+    let digits = if rest[0] == b'+' { &rest[1..] } else { rest };
+    if digits.is_empty() || !digits.iter().all(|c| c.is_ascii_digit()) {
+        return None;
+    }
+    let mut v: u64 = 0;
+    for &c in digits {
+        v = v * 10 + (c - b'0') as u64;
+        if v > u32::MAX as u64 {
+            return None;
+        }
+    }
+    Some(v as u32)
+}
+fn c20_one_text(s: &str) -> Check {
+    let got = panic::catch_unwind(|| HpoTermId::try_from(s).ok().map(|x| x.as_u32()));
+    match got {
+        Err(_) => Err(format!("HpoTermId::try_from({s:?}) panicked")),
+        Ok(g) => {
+            let e = c20_parse_oracle(s);
+            if g == e { Ok(()) } else { Err(format!("HpoTermId::try_from({s:?}) = {g:?}, specified {e:?}")) }
+        }
+    }
+}
+pub fn check_c20_all(thorough: bool) -> Result<(usize, usize), String> {
+    // 1. every id of the id space (and the u32 borders): rendering, parse round trip, byte round trip
+    let nthreads = 16u32;
+    let mut handles = vec![];
+    for t in 0..nthreads {
+        handles.push(std::thread::spawn(move || -> Result<(), String> {
+            let mut x = t;
+            while x <= 10_000_000 {
+                let id = HpoTermId::from_u32(x);
+                let s = id.to_string();
+                if s != c20_render(x) {
+                    return Err(format!("id {x} renders as {s:?}, specified {:?}", c20_render(x)));
+                }
+                if HpoTermId::try_from(s.as_str()).ok().map(|i| i.as_u32()) != Some(x) {
+                    return Err(format!("id {x}: parsing its rendering {s:?} does not return it"));
+                }
+                if HpoTermId::from(id.to_be_bytes()) != id || id.to_be_bytes() != x.to_be_bytes() {
+                    return Err(format!("id {x}: byte round trip fails"));
+                }
+                x += nthreads;
+            }
+            Ok(())
+        }));
+    }
+    for h in handles {
+        h.join().map_err(|_| "worker panicked".to_string())??;
+    }
+    let mut ids = 10_000_001usize;
+    for x in [10_000_001u32, 99_999_999, 100_000_000, u32::MAX - 1, u32::MAX, 1 << 31, (1 << 31) - 1] {
+        let id = HpoTermId::from_u32(x);
+        let s = id.to_string();
+        if s != c20_render(x) || HpoTermId::try_from(s.as_str()).ok().map(|i| i.as_u32()) != Some(x) {
+            return Err(format!("id {x} renders as {s:?} (specified {:?}) or does not parse back", c20_render(x)));
+        }
+        ids += 1;
+    }
+    // 2. text grid: every string over a small alphabet up to length 6 (7 thorough), plus long digit strings at the u32 border
+    let alphabet: Vec<&str> = vec!["0", "1", "9", "H", "P", ":", "+", "-", " ", "\u{e9}", "\u{20ac}", "\u{1f600}"];
+    let maxlen = if thorough { 6 } else { 5 };
+    let mut texts = 0usize;
+    let mut stack: Vec<String> = vec![String::new()];
+    while let Some(s) = stack.pop() {
+        c20_one_text(&s)?;
+        texts += 1;
+        if s.chars().count() < maxlen {
+            for a in &alphabet {
+                stack.push(format!("{s}{a}"));
+            }
+        }
+    }
+    for prefix in ["HP:", "abc", "\u{e9}:", "HP\u{e9}", "\u{20ac}", "HP:+", "HP:-", "HP: "] {
+        for tail in ["4294967295", "4294967296", "04294967295", "42949672950", "0000000000000000118", "9999999", "10000000", "1e3", "12 ", " 12", "1_000", "0x10", "١٢٣", ""] {
+            c20_one_text(&format!("{prefix}{tail}"))?;
+            texts += 1;
+        }
+    }
+    Ok((ids, texts))
 }
